@@ -38,7 +38,7 @@ CHECKS = [
   "Generated histories with one-shot failpoints armed at generated steps; an error without a fired failpoint is a violation, a write that reported Err is rolled back in the model and must never be served, every record acknowledged earlier must keep answering exactly after every step, service must resume after the fault clears (writes, delete, worker alive, idle reached), and after restart every blob is served or preserved byte-identical in the corrupted dir. Enumerated phase: one fixed history with the n-th operation of each kind failing for every n, on fresh and reopened active blobs. Rotation phase: the fault hits the background rotation of a full, aged blob; afterwards rotation must resume and continue.",
   "Faults are injected at pearl's own call sites (hook H2), not in the kernel. A key hit by a faulted delete is excluded from comparison (a delete may legitimately be applied to some blobs only). Open known finding: a failed write whose bytes reached the file can be resurrected by a later index regeneration."),
  ("C12", "exploration", "trace property: four ordering rules evaluated on the generated write/sync event trace (I/O tap)",
-  "Generated histories with dirty-byte limits {0,1,100,4096,1MiB,default}, value sizes around the write-path thresholds and concurrent write bursts run under the I/O tap with payload capture; the ordered trace must satisfy: blob header synced before the first record, index marked complete only after the blob bytes it describes were synced, explicit fsyncdata / close of the active blob / close leave no un-synced byte of that blob, and at every idle point the active blob's un-synced bytes are within the limit. A second generated phase injects one failing sync of a blob file (failpoint, EIO/ENOSPC) into write/burst/fsyncdata histories and judges the idle rule at every idle point that follows an acknowledged write made after the failure.",
+  "Generated histories with dirty-byte limits {0,1,100,4096,1MiB,default}, value sizes around the write-path thresholds and concurrent write bursts run under the I/O tap with payload capture; the ordered trace must satisfy: blob header synced before the first record, index marked complete only after the blob bytes it describes were synced, explicit fsyncdata / close of the active blob / close leave no un-synced byte of that blob, at every idle point the active blob's un-synced bytes are within the limit, and when close() of the storage has returned every byte of every blob file is covered by a completed sync. A second generated phase injects one failing sync of a blob file (failpoint, EIO/ENOSPC) into write/burst/fsyncdata histories and judges the idle rule at every idle point that follows an acknowledged write made after the failure.",
   "A write counts as covered by a sync only if its end event precedes the sync's begin event. 'Eventually' is judged at quiescence (H3 probe)."),
  ("C13", "exploration", "property testing of liveness at quiescence: arbitrary call sequences followed by an overflow probe judged through the background-worker probe",
   "Generated sequences over all public calls (all *_in_background variants in every active-blob state, force_update predicates incl. a slow one that makes the worker late for a pending deferred dump, data ops, restarts) with tiny blob limits; then the active blob is aged past the 200 ms debounce and over-filled; at idle (nothing queued, nothing running) the worker must be alive, a switch must have happened, every non-empty closed blob must have a complete current index file, and close() must return.",
@@ -53,7 +53,7 @@ CHECKS = [
   "Blobs produced by generated single-blob histories; undamaged files must pass validate_blob/validate_index, read_index must report exactly the parser's headers, migrate_blob must preserve every record. One generated damage (truncation inside a record per class, or a flipped byte in one of 15 position classes): validate_blob must reject, recovery_blob (skip off/on) must produce a valid blob with every intact record before the damage (and after it when skipping applies), correct blob_offsets, nothing invented, and a Storage opened on the output must serve every contained record with its original bytes. Enumerated phase: blobs of 1500-2600 records recovered / migrated undamaged for validate_every around 1024 and around the record count, also from a version-0 source (0 -> 1 migration).",
   "Known findings (open): flips in the blob header's version/flags fields and decodable flips in meta bytes are accepted by validate_blob (no checksum covers them); those cases print KNOWN-FINDING and are excluded from the reject clause only."),
  ("C17", "exploration", "cross-version differential against a committed corpus written by the pinned tree, exhaustively enumerated index-presence subsets and mismatch mutations",
-  "15 corpus directories written by the pinned release with recorded answers (9 small ones, 3 with multi-level B+tree index files, 3 with key sizes 32 / 128 and timestamps above 2^32 / at u64::MAX); for every subset of removed index files and both init modes the current code must reproduce every recorded answer - also with the bloom buffers off-loaded - and rebuild byte-identical index files; a bumped blob version must make init fail, a bumped index version must be healed by regeneration, another key size must never yield a successful read.",
+  "15 corpus directories written by the pinned release with recorded answers (9 small ones, 3 with multi-level B+tree index files, 3 with key sizes 32 / 128 and timestamps above 2^32 / at u64::MAX); for every subset of removed index files and both init modes the current code must reproduce every recorded answer - also with the bloom buffers off-loaded - and rebuild byte-identical index files; a bumped blob version must make init fail, a bumped index version must be healed by regeneration, another key size must never yield a successful read; opened under another bloom configuration (optionally extended by new blobs and reopened) every recorded answer must still hold.",
   "Only formats the pinned tree can write; the corpus was extended twice after seeded changes exposed gaps (tree depth, key sizes). The oracle is the old code's recorded behaviour."),
 ]
 
